@@ -34,8 +34,9 @@ type c15Ifi struct {
 }
 
 var c15Menu = []c15Ifi{
-	{Name: "lo", Index: 1, Flags: net.FlagUp | net.FlagLoopback, Routes: []string{"2001:db8:1::/48", "2001:db8:1:2::/64,high", "fd00::1/128"}},
-	{Name: "lo2", Index: 7, Flags: net.FlagUp | net.FlagLoopback | net.FlagMulticast, Routes: []string{"2001:db8:2::/56,low"}},
+	// (routes sharing a base address at different lengths, the longer one first and last)
+	{Name: "lo", Index: 1, Flags: net.FlagUp | net.FlagLoopback, Routes: []string{"2001:db8:1::/64", "2001:db8:1::/48", "2001:db8:1:2::/64,high", "fd00::1/128", "fd00::/64"}},
+	{Name: "lo2", Index: 7, Flags: net.FlagUp | net.FlagLoopback | net.FlagMulticast, Routes: []string{"2001:db8:2::/56,low", "2001:db8:2::/64", "2001:db8:2::/56,low"}},
 	{Name: "lo-down", Index: 8, Flags: net.FlagLoopback, Routes: []string{"2001:db8:8::/48"}},
 	{Name: "eth0", Index: 2, Flags: net.FlagUp | net.FlagBroadcast | net.FlagMulticast, Routes: []string{"2001:db8:e::/48"}},
 	{Name: "lo-empty", Index: 9, Flags: net.FlagUp | net.FlagLoopback},
@@ -65,7 +66,7 @@ func c15RouteMsgs(ifi c15Ifi) []rtnetlink.Message {
 func TestVerifC15Rtnl(t *testing.T) {
 	r := ev.Begin("C15", "rtnl")
 	defer r.End(t)
-	r.Rule = "the real addresser.LoopbackRoutes/routesByIndex over a scripted interface list and scripted rtnetlink replies: all subsets (<=4) of a 5-interface menu {loopback up with 3 routes (one /128, one with a kernel preference), second loopback up, loopback down, non-loopback up, loopback up without routes} in all permutations, x {no failure, the dump of one listed up loopback interface fails}, + failing interface listing; the scripted kernel holds every listed interface's main-table routes plus one local-table route each and answers a dump filtered by the table / out-interface the request names; oracle: result = (as a multiset) the main-table routes of the up loopback interfaces with prefix, length, index and kernel preference (medium when absent) preserved, any failure is an error; non-trivial = >=1 up loopback interface and >=1 other; distinct = distinct ordered list x failure"
+	r.Rule = "the real addresser.LoopbackRoutes/routesByIndex over a scripted interface list and scripted rtnetlink replies: all subsets (<=4) of a 5-interface menu {loopback up with 5 routes (a /128, one with a kernel preference, two pairs sharing a base address at different lengths), second loopback up (a same-base pair and a route listed twice), loopback down, non-loopback up, loopback up without routes} in all permutations, x {no failure, the dump of one listed up loopback interface fails}, + failing interface listing; the scripted kernel holds every listed interface's main-table routes plus one local-table route each and answers a dump filtered by the table / out-interface the request names; oracle: result = (as a set) the main-table routes of the up loopback interfaces with prefix, length, index and kernel preference (medium when absent) preserved, any failure is an error; non-trivial = >=1 up loopback interface and >=1 other; distinct = distinct ordered list x failure"
 	r.Assumptions = []string{"net.Interfaces inside LoopbackRoutes replaced by a scripted list (AST rewrite in the staged copy); rtnetlink replies injected through the addresser's execute field"}
 	defer VerifSetInterfaces(nil)
 	seam := 0
@@ -182,7 +183,14 @@ func TestVerifC15Rtnl(t *testing.T) {
 					ks = append(ks, fmt.Sprint(x))
 				}
 				sort.Strings(ks)
-				return fmt.Sprint(ks)
+				// as a set: whether an exact duplicate of the dump is kept is not the statement's business
+				var us []string
+				for i, k := range ks {
+					if i == 0 || k != ks[i-1] {
+						us = append(us, k)
+					}
+				}
+				return fmt.Sprint(us)
 			}
 			if key(got) != key(want) {
 				bad("C15:rtnl:routes", "LoopbackRoutes = %v, want %v", got, want)
